@@ -199,7 +199,7 @@ class IFProblem:
             a = InstantaneousAction("a%d" % ai, params, env)
             ps = list(a.parameters)
             for _ in range(rng.randint(0, 2)):
-                a.add_precondition(self.cond(ps, 0.55, "pre"))
+                a.add_precondition(self.cond(ps, 0.7, "pre"))
             n = rng.randint(1, 2)
             tries = 0
             while n > 0 and tries < 10:
@@ -355,6 +355,71 @@ class IFProblem:
                 a.add_increase_effect(f, v if rng.random() < 0.5 else 1, c)
             else:
                 a.add_decrease_effect(f, v if rng.random() < 0.3 else 1, c)
+
+
+def if_corpus():
+    """hand-written interpreted-function problems: one regression problem per repaired defect of the compiler and one
+    witness per open finding (the function bodies are explicit tables)"""
+    from unified_planning.environment import Environment
+    from unified_planning.model import Fluent, Problem, InstantaneousAction, InterpretedFunction
+    out = []
+
+    def base(label, x0=0):
+        env = Environment()
+        env.credits_stream = None
+        tm, em = env.type_manager, env.expression_manager
+        p = Problem(label, env)
+        fl = {}
+        x = Fluent("x", tm.IntType(0, 3), environment=env)
+        p.add_fluent(x, default_initial_value=x0)
+        fl["x"] = x
+        for n in ("d", "e", "g"):
+            fl[n] = Fluent(n, tm.BoolType(), environment=env)
+            p.add_fluent(fl[n], default_initial_value=False)
+        fi = InterpretedFunction("fi", tm.IntType(), OrderedDict([("a", tm.IntType())]), lambda a: {0: 2, 1: 0, 2: 1}.get(a, 3), env)
+        fb = InterpretedFunction("fb", tm.BoolType(), OrderedDict([("a", tm.IntType())]), lambda a: a in (0, 2), env)
+
+        def act(name):
+            return InstantaneousAction(name, _env=env)
+        return env, em, p, fl, fi, fb, act
+
+    # regression 83e753e: a conditional IF-valued effect that does not fire must not make its fluent unknown
+    env, em, p, fl, fi, fb, act = base("cond-if-effect-not-firing")
+    a = act("a"); a.add_effect(fl["x"], em.InterpretedFunctionExp(fi, [fl["x"]]), em.GE(fl["x"], 2))
+    b = act("b"); b.add_increase_effect(fl["x"], 1)
+    p.add_action(a); p.add_action(b); p.add_goal(em.Equals(fl["x"], 1))
+    out.append(HandProblem(p, "cond-if-effect-not-firing"))
+    # regression e85b684: an increase of an unknown fluent leaves it unknown
+    env, em, p, fl, fi, fb, act = base("increase-after-unknown")
+    a = act("a"); a.add_precondition(em.Not(fl["d"])); a.add_effect(fl["x"], em.InterpretedFunctionExp(fi, [em.Int(0)])); a.add_effect(fl["d"], True)
+    b = act("b"); b.add_precondition(fl["d"]); b.add_precondition(em.Not(fl["e"])); b.add_increase_effect(fl["x"], 1); b.add_effect(fl["e"], True)
+    p.add_action(a); p.add_action(b); p.add_goal(em.Equals(fl["x"], 3)); p.add_goal(fl["e"])
+    out.append(HandProblem(p, "increase-after-unknown"))
+    # regression 0b8b470: fi known at the argument, fb never evaluated
+    env, em, p, fl, fi, fb, act = base("two-functions-one-known", x0=1)
+    z = act("z"); z.add_precondition(em.Equals(em.InterpretedFunctionExp(fi, [fl["x"]]), 7)); z.add_effect(fl["g"], True)
+    b = act("b"); b.add_precondition(em.InterpretedFunctionExp(fb, [em.InterpretedFunctionExp(fi, [fl["x"]])])); b.add_effect(fl["g"], True)
+    p.add_action(z); p.add_action(b); p.add_goal(fl["g"])
+    out.append(HandProblem(p, "two-functions-one-known"))
+    # open finding C31-IF-EFFECT-CONDITION-READS-UNKNOWN: the condition of b's effect is decided on the stale value of x
+    env, em, p, fl, fi, fb, act = base("effect-condition-reads-unknown")
+    a = act("a"); a.add_effect(fl["x"], em.InterpretedFunctionExp(fi, [em.Int(0)]))
+    b = act("b"); b.add_effect(fl["g"], True, em.Equals(fl["x"], 2))
+    p.add_action(a); p.add_action(b); p.add_goal(fl["g"])
+    out.append(HandProblem(p, "effect-condition-reads-unknown"))
+    # open finding C31-IF-BOUNDED-STALE-VALUE: x -= 1 is checked against the bounds on the stale value 0
+    env, em, p, fl, fi, fb, act = base("bounded-stale-value")
+    a = act("a"); a.add_effect(fl["x"], em.InterpretedFunctionExp(fi, [em.Int(0)]))
+    b = act("b"); b.add_decrease_effect(fl["x"], 1); b.add_effect(fl["g"], True)
+    p.add_action(a); p.add_action(b); p.add_goal(fl["g"])
+    out.append(HandProblem(p, "bounded-stale-value"))
+    # several turns: the plan needs three values of fi
+    env, em, p, fl, fi, fb, act = base("chain-of-values")
+    a = act("a"); a.add_effect(fl["x"], em.InterpretedFunctionExp(fi, [fl["x"]]))
+    b = act("b"); b.add_precondition(em.Equals(em.InterpretedFunctionExp(fi, [fl["x"]]), 0)); b.add_effect(fl["g"], True)
+    p.add_action(a); p.add_action(b); p.add_goal(fl["g"])
+    out.append(HandProblem(p, "chain-of-values"))
+    return out
 
 
 def gen_c01_if(rng):
@@ -834,6 +899,12 @@ def shape_tags(problem):
                 tags.add("effect-condition-reads-if-dependent-fluent")
             if not e.is_assignment() and (val_if or e.fluent.fluent() in changing):
                 tags.add("increase-of-if-dependent-fluent")
+            ft = e.fluent.fluent().type
+            bounded = (ft.is_int_type() or ft.is_real_type()) and (ft.lower_bound is not None or ft.upper_bound is not None)
+            reads_dep = any(x.is_fluent_exp() and x.fluent() in changing for x in subterms(e.value))
+            if bounded and e.fluent.fluent() in changing and not val_if and (not e.is_assignment() or reads_dep):
+                # the compiled problem computes the new value from a stale one and checks the bounds on it
+                tags.add("bounded-if-dependent-fluent-updated-from-stale-value")
     for w, x in problem_ifun_apps(problem):
         if any(y.is_interpreted_function_exp() for arg in x.args for y in subterms(arg)):
             tags.add("nested-application")
@@ -1048,7 +1119,7 @@ def run(ctx):
     out["times"]["oversub_python"] = round(time.time() - t0, 1)
     t0 = time.time()
     # ---------------- interpreted functions
-    gens = []
+    gens = list(if_corpus())
     for i in range(n_if):
         gens.append(IFProblem(rng, cond_effects=rng.random() < 0.6, nested=rng.random() < 0.4))
     for i in range(n_c01if):
